@@ -18,7 +18,7 @@ from ..util import call
 from ..report import short
 
 glom = env.bind()
-from glom import T, SKIP, STOP, Auto, Sum, Flatten, Merge, glom as G  # noqa: E402
+from glom import T, SKIP, STOP, Auto, Sum, Flatten, Merge, Pipe, glom as G  # noqa: E402
 from glom.grouping import Group, First, Max, Min, Avg, Limit   # noqa: E402
 from glom.reduction import Count   # noqa: E402
 
@@ -495,6 +495,63 @@ def reentrant_same_object(col, rng):
                 return
 
 
+def nested_in_aggregator(col, rng):
+    """a Group inside the sub-spec of a Sum / Flatten / Merge / Count leaf of another Group aggregates over ITS OWN items"""
+    for _ in range(25):
+        rows = [{'k': rng.choice('ab'), 'rows': [[rng.randint(0, 9)] * rng.randint(1, 2) for _ in range(rng.randint(1, 3))],
+                 'nums': [rng.randint(0, 9) for _ in range(rng.randint(1, 4))]} for _ in range(rng.randint(1, 5))]
+        cases = [
+            ('flatten-in-flatten', Group({T['k']: Flatten(Pipe(T['rows'], Group(Flatten())))}),
+             lambda: _bucket(rows, lambda r: [x for sub in r['rows'] for x in sub], lambda acc, v: acc + v, [])),
+            ('sum-in-sum', Group({T['k']: Sum(Pipe(T['nums'], Group(Sum())))}),
+             lambda: _bucket(rows, lambda r: sum(r['nums']), lambda acc, v: acc + v, 0)),
+            ('count-in-flatten', Group({T['k']: Flatten(Pipe(T['nums'], Group([Count()])))}),
+             lambda: _bucket(rows, lambda r: list(range(1, len(r['nums']) + 1)), lambda acc, v: acc + v, [])),
+            ('group-dict-in-sum', Group({T['k']: Sum(Pipe(T['nums'], Group({T % 2: Count()}), len))}),
+             lambda: _bucket(rows, lambda r: len({n % 2 for n in r['nums']}), lambda acc, v: acc + v, 0)),
+        ]
+        for name, spec, ref in cases:
+            got = call(G, rows, spec)
+            want = call(ref)
+            col.case(('nested-in-aggregator', name), True)
+            col.count('nested_evaluations')
+            if not got.ok or not want.ok or not same(got.value, want.value):
+                col.violation('C16/group-nested-in-aggregator-subspec:' + name, '%s on %s: glom %s ; loop %s' % (name, short(rows, 300), short(got, 300), short(want, 300)), None)
+
+
+def _bucket(rows, inner, fold, init):
+    out = {}
+    for r in rows:
+        k = r['k']
+        v = inner(r)
+        if isinstance(init, list) and name_is_flatten(v):
+            pass
+        out[k] = fold(out[k], v) if k in out else fold(type(init)(init) if isinstance(init, list) else init, v)
+    return out
+
+
+def name_is_flatten(v):
+    return False
+
+
+def partial_orders(col):
+    """Max / Min over values that are only partially ordered (nan, sets by inclusion): Python's max() / min() keep the earlier value"""
+    import itertools
+    nan = float('nan')
+    pools = [[1.0, nan, 0.5], [nan, 1.0, 2.0], [frozenset([1]), frozenset([2]), frozenset([1, 2])], [(1, nan), (1, 0.0), (0, 5.0)]]
+    for pool in pools:
+        for items in itertools.permutations(pool):
+            for name in ('Max', 'Min'):
+                node = ('agg', name)
+                got = call(G, list(items), Group(build_spec(node)))
+                want = (max if name == 'Max' else min)(items)
+                col.case(('partial-order', name, repr(items)), True)
+                col.count('glom_evaluations')
+                same_v = got.ok and (got.value is want or got.value == want or (got.value != got.value and want != want))
+                if not same_v:
+                    col.violation('C16/differs-from-loop:%s:partially-ordered-values' % name, 'Group(%s()) on %r: %s() gives %r, glom %r' % (name, items, name.lower(), want, got), None)
+
+
 def rng_len(n):
     return 8 if n % 2 else 3
 
@@ -507,5 +564,7 @@ def run(ctx):
     if ctx.shard == 0:
         systematic(col)
         reentrant_same_object(col, rng)
+        nested_in_aggregator(col, rng)
+        partial_orders(col)
     for i in range(ctx.n(3000, 30000)):
         one_case(col, rng)
